@@ -134,6 +134,15 @@ def oracle(c, impl):
             o["hashes"] = {seg: {f.replace(".hidden", ""): h for f, h in files.items()} if isinstance(files, dict) else files
                            for seg, files in o["hashes"].items()}
     for n, o in enumerate(impl["obs"]):
+        # (5) whatever segments.idx names at a quiescent observation exists on disk with files (a published segment
+        # does not lose its directory)
+        if "index" in o and not o.get("parked_at") and "HIDE" not in ops and "FAILIDX" not in ops:
+            have = {int(sg) for sg, files in o["hashes"].items() if files}
+            for e in o["index"]:
+                if e[0] not in have:
+                    return (f"obs#{n}: segments.idx names segment {e[0]} but its directory is missing or empty on disk "
+                            f"(directories with files: {sorted(have)})")
+    for n, o in enumerate(impl["obs"]):
         # (3) crash-free, fault-free histories: a complete segment directory that was published and that no compaction
         # took as an input is named by segments.idx (a published segment does not drop out of the index while its
         # files stay behind)
